@@ -169,10 +169,14 @@ def lit_str(e):
     for n in walk(e):
         if n.get("k") == "Lit" and n["v"].startswith('"'):
             import ast as _ast
+            import re as _re
+            raw = n["v"]
+            # Rust's escape_debug writes `\u{7}`; Python's literal syntax wants `\u0007` / `\U00010000`
+            py = _re.sub(r"\\u\{([0-9a-fA-F]{1,6})\}", lambda m: "\\U%08x" % int(m.group(1), 16), raw)
             try:
-                return _ast.literal_eval(n["v"])
+                return _ast.literal_eval(py)
             except Exception:
-                return n["v"][1:-1]
+                return raw[1:-1]
     return None
 
 
